@@ -55,8 +55,15 @@ pub enum Degenerate {
     Base,
 }
 
+fn three() -> usize {
+    3
+}
+
 #[derive(Clone, Debug, Serialize, Deserialize)]
 pub struct C13Case {
+    /// number of chromosomes of the base input (names sort in input order)
+    #[serde(default = "three")]
+    pub nchrom: usize,
     pub bed: bool,
     pub valid: Option<Degenerate>,
     pub viol: Option<Viol>,
@@ -67,11 +74,19 @@ pub struct C13Case {
 
 const CLEN: u32 = 100;
 
-fn base_rows() -> Vec<(String, u32, u32)> {
+fn chrom_names(n: usize) -> Vec<String> {
+    if n == 3 {
+        vec!["chrA".into(), "chrB".into(), "chrC".into()]
+    } else {
+        (0..n).map(|i| format!("c{:04}", i)).collect()
+    }
+}
+
+fn base_rows(n: usize) -> Vec<(String, u32, u32)> {
     let mut v = vec![];
-    for c in ["chrA", "chrB", "chrC"] {
+    for c in chrom_names(n) {
         for (s, e) in [(10, 20), (30, 40), (50, 60)] {
-            v.push((c.to_string(), s, e));
+            v.push((c.clone(), s, e));
         }
     }
     v
@@ -86,31 +101,29 @@ struct Input {
 }
 
 fn build_input(c: &C13Case) -> Input {
-    let mut rows: Vec<(String, i64, i64)> = base_rows()
+    let names = chrom_names(c.nchrom);
+    let mut rows: Vec<(String, i64, i64)> = base_rows(c.nchrom)
         .into_iter()
         .map(|(c, s, e)| (c, s as i64, e as i64))
         .collect();
     let mut raw = HashMap::new();
-    let mut sizes: HashMap<String, u32> = ["chrA", "chrB", "chrC"]
-        .iter()
-        .map(|c| (c.to_string(), CLEN))
-        .collect();
+    let mut sizes: HashMap<String, u32> = names.iter().map(|c| (c.clone(), CLEN)).collect();
     let at = |ci: usize, ii: usize| ci * 3 + ii;
     if let Some(d) = &c.valid {
         rows.clear();
         match d {
             Degenerate::Base => {
-                rows = base_rows().into_iter().map(|(c, s, e)| (c, s as i64, e as i64)).collect();
+                rows = base_rows(c.nchrom).into_iter().map(|(c, s, e)| (c, s as i64, e as i64)).collect();
             }
             Degenerate::ZeroLen { n, nchrom, pos } => {
                 for ci in 0..*nchrom {
                     for k in 0..*n {
                         let p = (*pos as i64 + k as i64).min(if c.bed { CLEN as i64 - 1 } else { CLEN as i64 });
-                        rows.push((["chrA", "chrB", "chrC"][ci].to_string(), p, p));
+                        rows.push((names[ci].clone(), p, p));
                     }
                 }
             }
-            Degenerate::Single { s, e } => rows.push(("chrA".to_string(), *s as i64, *e as i64)),
+            Degenerate::Single { s, e } => rows.push((names[0].clone(), *s as i64, *e as i64)),
             Degenerate::NoValues { .. } => {}
         }
     }
@@ -143,7 +156,7 @@ fn build_input(c: &C13Case) -> Input {
                 });
             }
             Viol::UnknownChrom { ci } => {
-                let old = ["chrA", "chrB", "chrC"][*ci];
+                let old = names[*ci].clone();
                 let new = format!("{}_unlisted", old);
                 for r in rows.iter_mut() {
                     if r.0 == old {
@@ -152,13 +165,12 @@ fn build_input(c: &C13Case) -> Input {
                 }
             }
             Viol::ChromOrder { ci } => {
-                let names = ["chrA", "chrB", "chrC"];
-                let (a, b) = (names[*ci], names[*ci + 1]);
+                let (a, b) = (names[*ci].clone(), names[*ci + 1].clone());
                 for r in rows.iter_mut() {
                     if r.0 == a {
-                        r.0 = b.to_string();
+                        r.0 = b.clone();
                     } else if r.0 == b {
-                        r.0 = a.to_string();
+                        r.0 = a.clone();
                     }
                 }
             }
@@ -253,10 +265,12 @@ fn c13_write(c: &C13Case, tmpdir: &std::path::Path) -> Result<(), String> {
     let rt = make_runtime(c.rt);
     let mut opts = bigtools::BBIWriteOptions::default();
     opts.inmemory = true;
-    opts.items_per_slot = 2;
-    opts.block_size = 2;
+    if c.nchrom == 3 {
+        opts.items_per_slot = 2;
+        opts.block_size = 2;
+    }
     if let Some(Degenerate::NoValues { nchrom }) = &c.valid {
-        let chroms: Vec<String> = ["chrA", "chrB", "chrC"][..*nchrom].iter().map(|s| s.to_string()).collect();
+        let chroms: Vec<String> = chrom_names(c.nchrom)[..*nchrom].to_vec();
         return if c.bed {
             let mut w = BigBedWrite::new(sink, inp.sizes.clone());
             w.options = opts;
@@ -393,6 +407,12 @@ fn c13_tags(c: &C13Case) -> Vec<String> {
     let mut t = vec![];
     t.push(if c.bed { "bigbed".to_string() } else { "bigwig".to_string() });
     t.push(format!("src_{:?}", c.src).to_lowercase());
+    if c.nchrom > 5 {
+        t.push("more_than_5_chromosomes".to_string());
+    }
+    if c.nchrom > 100 {
+        t.push("more_than_100_chromosomes".to_string());
+    }
     if let Some(v) = &c.viol {
         let name = match v {
             Viol::StartsOutOfOrder { .. } => "starts_out_of_order".to_string(),
@@ -435,7 +455,7 @@ impl Check for C13 {
                     }
                     for two_pass in [false, true] {
                         for &rt in &rts {
-                            v.push(C13Case { bed, valid: None, viol: Some(viol.clone()), src, two_pass, rt });
+                            v.push(C13Case { nchrom: 3, bed, valid: None, viol: Some(viol.clone()), src, two_pass, rt });
                         }
                     }
                 }
@@ -464,7 +484,41 @@ impl Check for C13 {
                 for src in srcs {
                     for two_pass in [false, true] {
                         for &rt in &rts {
-                            v.push(C13Case { bed, valid: Some(d.clone()), viol: None, src, two_pass, rt });
+                            v.push(C13Case { nchrom: 3, bed, valid: Some(d.clone()), viol: None, src, two_pass, rt });
+                        }
+                    }
+                }
+            }
+            // many chromosomes: more than the parallel source queues at once (4 + 1), and more
+            // than the default channel capacity (100) between the pipeline's tasks
+            for n in [6usize, 8] {
+                let mut viols = vec![];
+                for ci in [0usize, 3, 4, 5, n - 2] {
+                    if ci + 1 < n && !viols.contains(&Viol::ChromOrder { ci }) {
+                        viols.push(Viol::ChromOrder { ci });
+                    }
+                }
+                for ci in [4usize, 5, n - 1] {
+                    viols.push(Viol::UnknownChrom { ci });
+                    viols.push(Viol::StartsOutOfOrder { ci, p: 1 });
+                    viols.push(Viol::BeyondChrom { ci, ii: 2 });
+                }
+                for viol in viols {
+                    for src in [Src::Iter, Src::SerialText, Src::ParallelFile] {
+                        for two_pass in [false, true] {
+                            for &rt in &rts {
+                                v.push(C13Case { nchrom: n, bed, valid: None, viol: Some(viol.clone()), src, two_pass, rt });
+                            }
+                        }
+                    }
+                }
+            }
+            let many: &[usize] = if quick { &[6, 101, 102, 130] } else { &[6, 8, 100, 101, 102, 103, 130, 260] };
+            for &n in many {
+                for src in [Src::Iter, Src::SerialText, Src::ParallelFile] {
+                    for two_pass in [false, true] {
+                        for &rt in &rts {
+                            v.push(C13Case { nchrom: n, bed, valid: Some(Degenerate::Base), viol: None, src, two_pass, rt });
                         }
                     }
                 }
@@ -745,6 +799,21 @@ impl Check for C14 {
                     }
                 }
             }
+            // index nodes of 8 KiB and more (>= 256 sections in a node): node blocks larger than
+            // the 8 KiB writer buffers take a different path through BufWriter
+            for two_pass in [false, true] {
+                for (bs, zoom) in [(256u32, Zoom::Manual(vec![])), (512, Zoom::Manual(vec![2]))] {
+                    let mut o = Opts::base();
+                    o.ips = 1;
+                    o.bs = bs;
+                    o.compress = false;
+                    o.two_pass = two_pass;
+                    o.zoom = zoom;
+                    for m in &modes {
+                        v.push(C14Case { bed, nchrom: 1, items: 300, opts: o.clone(), mode: m.clone() });
+                    }
+                }
+            }
             // refused inputs
             for viol in [
                 Viol::StartsOutOfOrder { ci: 0, p: 0 },
@@ -770,7 +839,7 @@ impl Check for C14 {
         out.nontrivial = true;
         match &c.mode {
             C14Mode::Refused(viol) => {
-                let cc = C13Case { bed: c.bed, valid: None, viol: Some(viol.clone()), src: Src::Iter, two_pass: c.opts.two_pass, rt: Rt::Current };
+                let cc = C13Case { nchrom: 3, bed: c.bed, valid: None, viol: Some(viol.clone()), src: Src::Iter, two_pass: c.opts.two_pass, rt: Rt::Current };
                 let inp = build_input(&cc);
                 let sink = Sink::new();
                 let s2 = sink.clone();
